@@ -102,13 +102,14 @@ prop('C06',
      units=['dnnf'],
      assumptions=[A_VERUS, A_EXTRACT, A_PTREQ, A_TERM,
                   'A-scratch: the per-node scratch memo read by cond_helper is modelled as empty (nothing in the crate stores a BddPtr there; its set_scratch line is commented out)',
-                  'A-unsafe: the unique table of StandardDecisionNNFBuilder returns a reference to a node equal to its argument (proved for the real table in unit `table`)'],
+                  'A-unsafe: the unique table of StandardDecisionNNFBuilder returns a reference to a node equal to its argument (proved for the real table in unit `table`)',
+                  'A-lit-iter: in unit dnnf the `impl Iterator<Item = Literal>` parameter of conjoin_implied is the trusted container LitIter; verif_lits_vec stands for draining it; Literal is the two-field stub of A-lit'],
      replay='dnnf',
      explanation='last sentence of the property: DecisionNNFBuilder::cond_helper / TopDownBuilder::condition carry  forall env. ptr_sem(r, env) == ptr_sem(bdd, upd(env, lbl, value))  '
-                 'for regular AND complemented pointers of any diagram in which no path decides a variable twice (no ordering assumption); var and the standard store get_or_insert are under contract',
+                 'for regular AND complemented pointers of any diagram in which no path decides a variable twice (no ordering assumption); var and the standard store get_or_insert are under contract; conjoin_implied (the step by which unit-propagated literals enter a diagram) returns the diagram conjoined with the literals and keeps "decides once"',
      not_covered=[
          'exactness of topdown_h / compile_cnf_topdown (false iff unsatisfiable, models = CNF models, decides once): conditional on SATSolver (C09, not applicable) and on the 128-bit residual hash identifying residual formulas [bounded check `dnnf` only, both node stores]',
-         'conjoin_implied: iterates an `impl Iterator<Item = Literal>` (no for-loop support for opaque iterators in Verus)',
+         'conjoin_implied is under contract with two declared rewrites: its `impl Iterator<Item = Literal>` parameter is the trusted container LitIter and the loop iterates the vector it stands for (A-lit-iter); proved: the result is the diagram conjoined with every implied literal and still decides each variable once, provided the literals are on distinct variables the diagram does not decide -- the callers (topdown_h) are not under contract',
          'SemanticDecisionNNFBuilder (semantic-hash node store): C11',
      ])
 
